@@ -86,7 +86,11 @@ def _run_chunk(args):
     for prof in ('dev', 'release'):
         cur = lines; done = []
         while True:
-            p = subprocess.run([bins[prof]], input='\n'.join(cur) + '\n', stdout=subprocess.PIPE, stderr=subprocess.PIPE, text=True)
+            try:
+                p = subprocess.run([bins[prof]], input='\n'.join(cur) + '\n', stdout=subprocess.PIPE, stderr=subprocess.PIPE, text=True, timeout=1500)
+            except subprocess.TimeoutExpired as e_:
+                # safety net above the in-process watchdog: never leave a spinning harness behind
+                done.append('HARNESS_CRASH rc=timeout the harness did not finish %d lines in 1500 s' % len(cur)); break
             got = p.stdout.splitlines()
             if p.returncode == 3:
                 m = re.search(r'TIMEOUT (\d+)', p.stderr); k = int(m.group(1)) if m else len(got)
@@ -118,7 +122,10 @@ def _run_chunk(args):
         if b.endswith('=> TIMEOUT') and b not in res['timeout']: res['timeout'].append(b + ' [release]')
     for kind, exe, want in (('model', 'modeldriver', want_model), ('spec', 'specdriver', want_spec)):
         if not want: continue
-        p = subprocess.run([os.path.join(LEAN, '.lake/build/bin', exe)], input='\n'.join(dev) + '\n', stdout=subprocess.PIPE, stderr=subprocess.PIPE, text=True)
+        try:
+            p = subprocess.run([os.path.join(LEAN, '.lake/build/bin', exe)], input='\n'.join(dev) + '\n', stdout=subprocess.PIPE, stderr=subprocess.PIPE, text=True, timeout=3000)
+        except subprocess.TimeoutExpired:
+            res[kind].append('DRIVER_CRASH %s rc=timeout' % exe); continue
         if p.returncode != 0:
             res[kind].append('DRIVER_CRASH %s rc=%d %s' % (exe, p.returncode, p.stderr[-300:]))
         for l in p.stdout.splitlines():
